@@ -68,6 +68,7 @@ type registryKey struct {
 }
 
 func (br *baseRegistry) Load(typ reflect.Type, tag string) plenccodec.Codec {
+	plenccore.VerifYield("reg.load")
 	c, ok := br.codecRegistry.Load(registryKey{typ: typ, tag: tag})
 	if !ok {
 		return nil
@@ -76,10 +77,12 @@ func (br *baseRegistry) Load(typ reflect.Type, tag string) plenccodec.Codec {
 }
 
 func (br *baseRegistry) Store(typ reflect.Type, tag string, c plenccodec.Codec) {
+	plenccore.VerifYield("reg.store")
 	br.codecRegistry.Store(registryKey{typ: typ, tag: tag}, c)
 }
 
 func (br *baseRegistry) StoreOrSwap(typ reflect.Type, tag string, c plenccodec.Codec) plenccodec.Codec {
+	plenccore.VerifYield("reg.storeOrSwap")
 	cv, _ := br.codecRegistry.LoadOrStore(registryKey{typ: typ, tag: tag}, c)
 	return cv.(plenccodec.Codec)
 }
